@@ -214,20 +214,55 @@ _ORDINAL = {"module stems": 1}  # second membership-while of ModelsEmitter.emit;
 
 def _dedup_site(fn: Function, label: str, seen_hint: str, rep: Report) -> None:
     """The de-duplication construct is found by shape, not by the name of its collection: the n-th `while <name> in <collection>`
-    loop of the function (`seen_hint` is only used in messages when no loop is found)."""
+    loop of the function (`seen_hint` is only used in messages when no loop is found).  If the function as written does not show the
+    pattern, the function with its local helper calls inlined is examined (the loop may have been extracted into a helper)."""
+    from sa.report import with_flatten_fallback
+
+    with_flatten_fallback(rep, fn, lambda f, r: _dedup_site_1(f, label, seen_hint, r))
+
+
+def _dedup_site_1(fn: Function, label: str, seen_hint: str, rep) -> None:
     sub0 = f"{fn.module.relpath}:{fn.qualname} namespace `{label}`"
     L = Locals(fn.node)
-    all_whiles = sorted([n for n in own_nodes(fn.node) if isinstance(n, ast.While) and isinstance(n.test, ast.Compare) and len(n.test.ops) == 1
-                         and isinstance(n.test.ops[0], ast.In) and isinstance(n.test.comparators[0], (ast.Name, ast.Attribute))], key=lambda n: n.lineno)
+    def _membership(t: ast.AST):
+        """(tested expression, collection, sense) for `X in S` / `X not in S` with S a plain name / attribute"""
+        if isinstance(t, ast.UnaryOp) and isinstance(t.op, ast.Not):
+            m = _membership(t.operand)
+            return (m[0], m[1], not m[2]) if m else None
+        if isinstance(t, ast.Compare) and len(t.ops) == 1 and isinstance(t.ops[0], (ast.In, ast.NotIn)) and isinstance(t.comparators[0], (ast.Name, ast.Attribute)):
+            return t.left, t.comparators[0], isinstance(t.ops[0], ast.In)
+        return None
+
+    # rename-until-unused loops, in any of the three spellings:
+    #   while X in S: X = ...            |  while True: X = ...; if X not in S: break        |  for i in itertools.count(): if X not in S: break; X = ...
+    cands = []  # (loop, tested expr, collection, exit kind)
+    for n in own_nodes(fn.node):
+        if isinstance(n, ast.While):
+            m = _membership(n.test)
+            if m is not None and m[2]:
+                cands.append((n, m[0], m[1], "test"))
+                continue
+        is_count = isinstance(n, ast.For) and isinstance(n.iter, ast.Call) and (dotted(n.iter.func) or "").split(".")[-1] == "count"
+        is_forever = isinstance(n, ast.While) and isinstance(n.test, ast.Constant) and n.test.value is True
+        if is_count or is_forever:
+            for st in n.body:
+                if isinstance(st, ast.If):
+                    m = _membership(st.test)
+                    if m is None:
+                        continue
+                    free_branch = st.orelse if m[2] else st.body  # the branch taken when the name is NOT in the collection
+                    if any(isinstance(x, ast.Break) for x in free_branch):
+                        cands.append((n, m[0], m[1], "break"))
+                        break
+    cands.sort(key=lambda c: c[0].lineno)
     k = _ORDINAL.get(label, 0)
-    if len(all_whiles) <= k:
+    if len(cands) <= k:
         rep.violation("R20.2", sub0, f"{fn.fq}|dedup|{label}|no-loop",
-                      f"no `while <name> in <used names>` loop ({seen_hint}): colliding names in this namespace are not renamed until unused (two spec "
-                      "names can end up with the same identifier, or one is dropped)", fn.loc())
+                      f"no rename-until-unused loop (`while <name> in <used names>` or an equivalent) ({seen_hint}): colliding names in this namespace are not "
+                      "renamed until unused (two spec names can end up with the same identifier, or one is dropped)", fn.loc())
         return
-    w = all_whiles[k]
-    t = w.test
-    coll = t.comparators[0]  # type: ignore[union-attr]
+    w, left, coll, exit_kind = cands[k]
+    t = w.test if exit_kind == "test" else None
     # the accumulating collection(s): the tested collection itself and the collections it is (re)built from, e.g. taken = set(details) | path_names
     roots = {norm(coll)}
     if isinstance(coll, ast.Name):
@@ -237,7 +272,6 @@ def _dedup_site(fn: Function, label: str, seen_hint: str, rep: Report) -> None:
         for n in own_nodes(fn.node):
             if isinstance(n, ast.AugAssign) and isinstance(n.target, ast.Name) and n.target.id == coll.id:
                 roots |= {x.id for x in ast.walk(n.value) if isinstance(x, ast.Name) and x.id in L.defs}
-    left = t.left  # type: ignore[union-attr]
     names = [x.id for x in ast.walk(left) if isinstance(x, ast.Name) and x.id in L.defs]
     tested = names[0] if names else None
     # (ii) the loop body reassigns the tested name
@@ -245,7 +279,7 @@ def _dedup_site(fn: Function, label: str, seen_hint: str, rep: Report) -> None:
         isinstance(x, ast.Name) and x.id == tested for x in (n.targets if isinstance(n, ast.Assign) else [n.target])) for n in ast.walk(w))
     # (iii) after the loop the final name is recorded in the accumulating collection
     cfg = CFG(fn.node)
-    wn = [n.id for n in cfg.nodes if n.kind == "test" and n.stmt is w]
+    wn = [n.id for n in cfg.nodes if n.kind == "test" and n.stmt is w] if exit_kind == "test" else [n.id for n in cfg.nodes if n.kind in ("test", "iter") and n.stmt is w]
     rec_nodes = set()
     rec_args = []
     for n in cfg.nodes:
@@ -263,7 +297,13 @@ def _dedup_site(fn: Function, label: str, seen_hint: str, rep: Report) -> None:
     hdr = {n.id for n in cfg.nodes if n.kind == "iter"}
     recorded = False
     if wn and rec_nodes:
-        exits = [m for m, lab in cfg.succ[wn[0]] if lab == "false"]
+        if exit_kind == "test":
+            exits = [m for m, lab in cfg.succ[wn[0]] if lab == "false"]
+        else:
+            inside_w = {id(x) for x in ast.walk(w)}
+            brk = [n for n in cfg.nodes if isinstance(n.ast, ast.Break) and id(n.ast) in inside_w and not any(
+                isinstance(a, (ast.For, ast.While)) and a is not w and id(a) in inside_w and any(y is n.ast for y in ast.walk(a)) for a in ast.walk(w))]
+            exits = [m for b in brk for m, _ in cfg.succ[b.id]]
         recorded = all(m in rec_nodes or cfg.must_pass(m, rec_nodes, hdr | {cfg.exit}) is None for m in exits)
     # the recorded value must be (derived from) the tested name
     same = False
